@@ -527,7 +527,7 @@ theorem step_K {t : Nat} {s s' : Sys} {l : Label} (hw : Wf s) (h2 : Wf2 s) (hk :
           split at hs
           · simp at hs
           · simp only [Option.some.injEq] at hs; subst hs
-            refine key { status := .fresh, base := some g, member := some g } _ rfl rfl rfl (fun g' => ?_)
+            refine key { status := .fresh, base := some g, member := some g, depth := (s.tasks x).depth + 1 } _ rfl rfl rfl (fun g' => ?_)
             simp only [setGroup_groups, setTask_groups]; split
             · rename_i e; subst e; exact ⟨rfl, id, id⟩
             · exact ⟨rfl, id, id⟩
